@@ -454,8 +454,25 @@ def gate(ctx, binp, drv):
                           "replay": f"printf '0 consts p={p}\\n' | harness/target/release/pvh ntt120"}, True)
             broken.append(f"constants Primes{p}")
     ctx.cov["ntt120_constants_compared"] = ["q", "omega", "crt", "logq", "bbc(h,s2l,s2h)", "bbb(h,s1h,s2l..s4h)", "baa(h,h_pow_red)", "ntt reduc(h,mask,cst)", "Q_SHIFTED"]
+    # 1b. regression corpus (corpus/C07/*.case): boundary requests and the witnesses of the recorded observations
+    import glob
+    import os
+    corpus = []
+    for f in sorted(glob.glob(os.path.join(os.path.dirname(os.path.dirname(os.path.abspath(__file__))), "corpus", "C07", "*.case"))):
+        corpus += [l.strip() for l in open(f) if l.strip() and not l.startswith("#")]
+    if corpus:
+        _, iout, _ = ctx.run_lines(binp, ["ntt120"], [f"{k} {l}" for k, l in enumerate(corpus)])
+        _, mout, _ = ctx.run_lines(drv, [], [f"{k} ntt120 {l}" for k, l in enumerate(corpus)])
+        for k, l in enumerate(corpus):
+            a, b = ans_of(iout, k), ans_of(mout, k)
+            ctx.count_case(("ntt120-corpus", l.split(" ")[0], k), True)
+            if a != b:
+                ctx.disagreements += 1
+                ctx.violation("NTT120 arithmetic (corpus): model and implementation differ", {"request": l, "implementation": a[:2000], "model": b[:2000]}, False)
+                broken.append(f"corpus line {k}")
+        ctx.cov["ntt120_corpus_lines"] = len(corpus)
     # 2. generated cases
-    n_cases = 3400 if quick else 40000
+    n_cases = 3400 if quick else 20000
     cases = [case(rng, quick) for _ in range(n_cases)]
     hist, values = {}, 0
     for off in range(0, len(cases), 4000):
